@@ -506,6 +506,7 @@ def run(ctx):
                       "collapse and every later operand slot number of the reconstructed program is off" % (ctor, why), line=r.line)
 
     d4_codec(db, rep)
+    d4b_composite_codec(db, rep)
 
     if ctx.tier == "thorough":
         d5(ctx, rep)
@@ -534,3 +535,34 @@ def d5(ctx, rep):
               "orc/orcbytecodes.h is what generate-bytecode --header writes (%d lines)" % len(b),
               "orc/orcbytecodes.h differs from the generator's output, first at line %s: generated `%s`, checked in `%s`" % (diff[0] if diff else (0, "", "")))
 
+
+
+def d4b_composite_codec(db, rep, rule="D4b-COMPOSITE-CODEC"):
+    """D4b: composite items (strings) are written as a sequence of primitive items - a length through the variable-width
+    integer codec, then the bytes - and must be read back through the mirror primitives in the same order.  A reader that
+    takes the length with another primitive than the writer used agrees with it only for small values."""
+    tu = db.tu("orcbytecode")
+    W = {"bytecode_append_int": "int", "bytecode_append_byte": "byte", "bytecode_append_int32": "int32", "bytecode_append_int64": "int64"}
+    R = {"orc_bytecode_parse_get_int": "int", "orc_bytecode_parse_get_byte": "byte", "orc_bytecode_parse_get_uint32": "int32",
+         "orc_bytecode_parse_get_uint64": "int64"}
+
+    def kinds(f, table):
+        out = []
+        for c in sorted({c.id: c for c in f.calls()}.values(), key=lambda c: (c.line, c.id)):
+            if c.name in table and (not out or out[-1] != table[c.name]):
+                out.append(table[c.name])
+        return out
+    n = 0
+    for wname, rname in (("bytecode_append_string", "orc_bytecode_parse_get_string"),):
+        w, r = tu.fn.get(wname), tu.fn.get(rname)
+        if w is None or r is None:
+            raise AnalysisBroken("string codec functions not found (%s / %s)" % (wname, rname))
+        rep.saw(w)
+        rep.saw(r)
+        kw, kr = kinds(w, W), kinds(r, R)
+        n += 1
+        rep.check(bool(kw) and kw[:1] == kr[:1] and (len(kr) < 2 or kw == kr), rule, where(r), "%s<->%s" % (wname, rname),
+                  "writer emits %s, reader consumes %s" % (kw, kr),
+                  "%s writes a string as %s but %s reads it back as %s: the two agree only while the value fits the smaller primitive (a length of 255 "
+                  "or more is an escape byte for the variable-width integer): the rest of the string is then parsed as bytecode" % (wname, kw, rname, kr), line=r.line)
+    return n
